@@ -231,3 +231,6 @@ func vh_C11_L1_read_below_skip_point_releases_everything() { vh_C07_L3_receiver_
 func vh_C11_L2_iforward_tsn_keeps_ordered_and_unordered_apart() {
 	vh_C07_L2_iforward_tsn_ordered_and_unordered_entries()
 }
+
+// C11.L7: nothing beyond the window is stored *or tracked* (= C01.L4).
+func vh_C11_L7_nothing_beyond_the_window_is_tracked() { vh_C01_L4_duplicate_suppression() }
